@@ -216,7 +216,9 @@ def project_leaf(x, kind, comp=None):
         if kind == "bool":
             if x is None:
                 return 0, None
-            return None, "bool leaf cannot be identified"
+            if isinstance(x, (bool, np.bool_)):
+                return (-2 if bool(x) else -3), None      # a bool says only whether its setting's id is even (-2) or odd (-3)
+            return None, "non-bool leaf %r for a bool result" % (x,)
         if kind == "strbool":
             if x is None:
                 return None, "None leaf for tuple result"
@@ -639,6 +641,11 @@ def replay_case(case, variant):
                 i, prob = project_leaf(leaf, rkind, comp)
                 if prob:
                     return "position %d: %s" % (k, prob), drift
+                if i in (-2, -3):
+                    if out[k] == 0 or (out[k] % 2 == 0) != (i == -2):
+                        return "position %d holds %r, expected %s" % (
+                            k, i == -2, "missing (None)" if out[k] == 0 else "the value of setting %d (%r)" % (out[k], out[k] % 2 == 0)), drift
+                    continue
                 if i != out[k]:
                     return "position %d holds the value of setting %s, expected %s (0 = missing)" % (k, i, out[k]), drift
         return None, drift
@@ -919,6 +926,23 @@ def record_real_runs(seed, count):
     shapes = [[2, 2], [3], [4], [2, 3], [1, 3], [2, 1, 2]]
     traces = []
     kinds = ["seq_shuffle", "threadpool", "mp_threadpool", "seq_shuffle", "threadpool", "loky"]
+    # the caller's pools: created once and handed to every sweep of that kind (they stay the caller's)
+    shared_tp = cf.ThreadPoolExecutor(3)
+    shared_mp = mpp.ThreadPool(3)
+    try:
+        return _record_real_runs(rnd, count, shapes, kinds, shared_tp, shared_mp, cr)
+    finally:
+        shared_tp.shutdown()
+        shared_mp.close()
+        shared_mp.join()
+
+
+def _record_real_runs(rnd, count, shapes, kinds, shared_tp, shared_mp, cr):
+    import functools
+    import tempfile
+    import threading
+    import time
+    traces = []
     for t in range(count):
         grid = shapes[t % len(shapes)]
         kind = kinds[t % len(kinds)]
@@ -942,37 +966,37 @@ def record_real_runs(seed, count):
             return float(sum(kw[nm] * (100 ** j) for j, nm in enumerate(names)))
 
         opts = dict(verbosity=0, flat=flat)
-        pool = None
-        if kind == "seq_shuffle":
-            shuffle = rnd.choice([True, 1, 7, 12345])
-            res = cr.combo_runner(fn, combos, shuffle=shuffle, **opts)
-        elif kind == "threadpool":
-            shuffle = rnd.choice([False, 3])
-            with cf.ThreadPoolExecutor(3) as pool:
-                res = cr.combo_runner(fn, combos, shuffle=shuffle, executor=pool, **opts)
-        elif kind == "mp_threadpool":
-            pool = mpp.ThreadPool(3)
-            try:
-                res = cr.combo_runner(fn, combos, executor=pool, **opts)
-            finally:
-                pool.close()
-                pool.join()
-        else:
-            d = tempfile.mkdtemp(prefix="vx-loky-", dir=common.scratch("loky"))
-            logp = os.path.join(d, "calls.log")
-            pf = functools.partial(_loky_fn, logp, tuple(names))
-            res = cr.combo_runner(pf, combos, num_workers=2, **opts)
-            with open(logp) as fh:
-                for line in fh:
-                    vals = [int(x) for x in line.strip().split(",")]
-                    calls.append(tok[float(sum(v * (100 ** j) for j, v in enumerate(vals)))])
-        if flat:
+        error = None
+        res = None
+        try:
+            if kind == "seq_shuffle":
+                shuffle = rnd.choice([True, 1, 7, 12345])
+                res = cr.combo_runner(fn, combos, shuffle=shuffle, **opts)
+            elif kind == "threadpool":
+                shuffle = rnd.choice([False, 3])
+                res = cr.combo_runner(fn, combos, shuffle=shuffle, executor=shared_tp, **opts)
+            elif kind == "mp_threadpool":
+                res = cr.combo_runner(fn, combos, executor=shared_mp, **opts)
+            else:
+                d = tempfile.mkdtemp(prefix="vx-loky-", dir=common.scratch("loky"))
+                logp = os.path.join(d, "calls.log")
+                pf = functools.partial(_loky_fn, logp, tuple(names))
+                res = cr.combo_runner(pf, combos, num_workers=2, **opts)
+                with open(logp) as fh:
+                    for line in fh:
+                        vals = [int(x) for x in line.strip().split(",")]
+                        calls.append(tok[float(sum(v * (100 ** j) for j, v in enumerate(vals)))])
+        except Exception as e:  # noqa
+            error = "%s: %s" % (type(e).__name__, str(e)[:200])
+        if error is not None:
+            out = [-1]
+        elif flat:
             out = [tok.get(float(x), -1) for x in res]
         else:
             leaves, prob = flatten_nested(res, grid)
             out = [tok.get(float(x), -1) for x in leaves] if not prob else [-1]
         cfg = mk(grid, shuffle=bool(shuffle), pool=(kind != "seq_shuffle"), kind="flat" if flat else "nested")
-        traces.append(dict(cfg=cfg, calls=list(calls), out=out, rejected=False, how=kind, shuffle=repr(shuffle)))
+        traces.append(dict(cfg=cfg, calls=list(calls), out=out, rejected=False, how=kind, shuffle=repr(shuffle), error=error))
     return traces
 
 
